@@ -11,7 +11,7 @@
          -> res=<offset> nevals=<n> ranout=<0|1> storeoob=<0|1> evals=<runs>
     ask bulk findif | chunks <d>                  -> n=<num_chunks> size=<chunk_size> chunks=<b-e,…>
     ask bulk findif | tilefail <maxd>             -> none | d=<least d ≤ maxd whose chunks do not tile [0,d)> chunks=…
-    ask bulk findif | tilefails <maxd>            -> count=<number of d ≤ maxd that do not tile> outside_cond=<number of those with tileCond d>
+    ask bulk findif | tilefails <maxd>            -> count=<number of d ≤ maxd that do not tile> first=<least such d|none>
     ask bulk findif | oobfail <maxd>              -> none | d=<least d ≤ maxd for which the all-false predicate is evaluated outside [0,d)> first=<offset>
 -/
 import UnifexModel.Driver.Entry
@@ -103,8 +103,7 @@ def findifQuery (q : String) : String :=
     match m.toNat? with
     | some m =>
       let bad := (List.range (m + 1)).filter (fun d => !FindIf.tilesB d)
-      let ok := (List.range (m + 1)).filter (fun d => FindIf.tilesB d)
-      s!"count={bad.length} bad_inside_cond={(bad.filter FindIf.tileCond).length} ok_outside_cond={(ok.filter (fun d => !FindIf.tileCond d)).length} first={match bad.head? with | some d => toString d | none => "none"}"
+      s!"count={bad.length} first={match bad.head? with | some d => toString d | none => "none"}"
     | none => "bad-query"
   | ["oobfail", m] =>
     match m.toNat? with
